@@ -292,7 +292,7 @@ class C01(World):
             "mesh": meshes.random_recipe(rng, bases=[b for b in meshes.BASES if b != "icosa2" or rng.random() < 0.15]),
             "weights": swarm_weights(rng, MUTATORS, keep_p=0.45),
             "observables": sorted(rng.sample(obs_pool, min(k, len(obs_pool)))),
-            "n_steps": rng.choice([1, 1, 2, 2, 3, 3, 4, 6]),
+            "n_steps": rng.choice([1, 1, 2, 2, 3, 3, 4, 6] if self.TIER != "thorough" else [1, 2, 3, 4, 6, 8, 10, 12]),
             "use_embree": rng.random() < 0.5,
             "density": rng.choice([None, None, 2.5]),
             "center_mass": rng.choice([None, None, None, [0.1, 0.2, -0.3]]),
